@@ -881,6 +881,18 @@ func (s *stakingSC) insertAfterLastJailed(
 			PreviousKey:  inWaitingListKey,
 			NextKey:      nextKey,
 		}
+
+		// the old first element is now the second one: it must point back to the new first element
+		previousFirstElement, err := s.getWaitingListElement(nextKey)
+		if err != nil {
+			return err
+		}
+		previousFirstElement.PreviousKey = inWaitingListKey
+		err = s.saveWaitingListElement(nextKey, previousFirstElement)
+		if err != nil {
+			return err
+		}
+
 		return s.saveElementAndList(inWaitingListKey, elementInWaiting, waitingList)
 	}
 
